@@ -100,9 +100,28 @@ def _gen_prop(pid):
             res.cov["distribution"]["recognizer-inputs-under-recover"] = n
         if pid == "C17" and not res.violations:
             cel.panic_check(res)
+        if pid == "C07" and not res.violations:
+            cel.extra_rule_check(res)
         if pid == "C15":
             cel.ctx_check(res)
         if pid == "C16":
+            # repeatability of the runtime recognizers: every generated input twice, second time in another order
+            import subprocess as _sp
+            for fn in ("email", "url", "uuid", "alpha", "numeric"):
+                q = _sp.run([gen.os.path.join(gen.C.BIN, "harness"), "rec-twice", fn, res.tier, str(res.seed)], stdout=_sp.PIPE, stderr=_sp.PIPE, text=True)
+                if q.returncode != 0:
+                    raise RuntimeError("harness rec-twice failed: " + q.stderr[-2000:])
+                lines = [l.split("\t") for l in q.stdout.split("\n") if l]
+                diffs = [l for l in lines if l[0] != "summary"]
+                for l in lines:
+                    if l[0] == "summary":
+                        res.cov["evaluations"] += 2 * int(l[2])
+                        res.cov["distribution"]["recognizer inputs evaluated twice (%s)" % fn] = int(l[2])
+                if diffs and not res.violations:
+                    diffs.sort(key=lambda l: len(l[1]))
+                    res.violation("repeat", {"kind": "rec-repeat", "fn": fn, "hex": diffs[0][1], "input": bytes.fromhex(diffs[0][1] if diffs[0][1] != "-" else "").decode("utf-8", "replace"),
+                                             "first_call": diffs[0][2], "later_call": diffs[0][3], "count": len(diffs),
+                                             "what": "the same input got different verdicts from two calls in one process (the recognizer keeps state)"}, True)
             rs = hextra.get("race")
             if rs is not None:
                 res.cov["distribution"]["structs-raced (2, 8 and 64 goroutines, shared and private values, -race)"] = rs["packages"]
